@@ -104,6 +104,7 @@ inductive Obs where
   | closeTimer (c : Nat)                                   -- uv_close(timer of c)
   | res (c : Nat) (r : Res) (live : Bool)                  -- input log: stat result seen by poll_cb
   | ret (rc : Int) (active : Bool)                         -- API return + uv_is_active afterwards
+  | api (o : Op)                                           -- an API call is being made (main program or script)
   | misuse
   | badEvent
 deriving DecidableEq, Repr, Inhabited
@@ -177,7 +178,9 @@ def apiClose (s : S) (h : Nat) : S :=
     let s3 := if H2.chain.isEmpty then s2.setH h { H2 with closePending := true } else s2
     s3.emit (.ret 0 false)
 
-def applyOp (s : S) : Op → S
+def applyOp (s : S) (o : Op) : S :=
+  let s := s.emit (.api o)
+  match o with
   | .start h cb p iv => apiStart s h cb p iv
   | .stop h => apiStop s h
   | .close h => apiClose s h
